@@ -74,6 +74,15 @@ class Out(object):
         return ["ok", self.info.get("sum")]
 
 
+def text_sum(t):
+    """Order-insensitive summary of an export text for the event log.  (The order of a
+    multi-valued attribute's values follows set iteration order, which for xsd:anyURI
+    values depends on the *address* of the Identifier class object - Identifier.__hash__
+    hashes the class - and so differs between processes even under a fixed
+    PYTHONHASHSEED; the event log must not.)"""
+    return [len(t), hashlib.sha1("".join(sorted(t)).encode("utf-8", "surrogatepass")).hexdigest()[:12]]
+
+
 def parse_dt(iso):
     return datetime.datetime.fromisoformat(iso)
 
@@ -619,13 +628,13 @@ class World(object):
 
     def op_provn(self, dh):
         d = self.cont(dh)
-        return self._call(lambda: d.get_provn(), lambda t: hashlib.sha1(t.encode()).hexdigest()[:12])
+        return self._call(lambda: d.get_provn(), text_sum)
 
     def op_serialize(self, dh, fmt, wopts):
         d = self.doc(dh)
         return self._call(
             lambda: d.serialize(format=fmt, **wopts),
-            lambda t: hashlib.sha1(t.encode()).hexdigest()[:12] if fmt != "rdf" else len(t.splitlines()),
+            lambda t: text_sum(t) if fmt != "rdf" else len(t.splitlines()),
         )
 
     def op_graph(self, dh):
@@ -640,7 +649,7 @@ class World(object):
         d = self.doc(dh)
         return self._call(
             lambda: prov_to_dot(d, **opts).to_string(),
-            lambda t: hashlib.sha1(t.encode()).hexdigest()[:12],
+            lambda t: len(t),
         )
 
     def op_records_list(self, ch):
